@@ -14,6 +14,14 @@ import (
 
 var renderPacked bool
 
+// probeAfterError: go on calling Next() after an iterator reported an error and require that
+// whatever it still hands out is the getter's component for that position.  On for views whose
+// data is MISSING (summarised nodes: the property's wording); off for corrupt backings (a pair
+// grafted where a chunk is expected), where the library makes no promise about later calls -
+// observed there: fieldReadonlyIter does not advance its field index on a conversion error, so a
+// caller that continues gets the following nodes read with the previous field's type.
+var probeAfterError = true
+
 func renderElem(v view.View, h tree.HashFn) string {
 	if !renderPacked {
 		return rootHex(v.HashTreeRoot(h))
@@ -41,12 +49,25 @@ type bitIter interface {
 	Next() (bool, bool, error)
 }
 
-func drainElems(it elemIter, n int, h tree.HashFn) string {
+func drainElems(it elemIter, n int, h tree.HashFn, getAt func(i int) string) string {
 	var parts []string
 	for i := 0; i < n; i++ {
 		el, ok, err := it.Next()
 		if err != nil {
 			parts = append(parts, "ERR")
+			// a caller that goes on after the error may get further errors, the end, or components
+			// - but then the right ones: every call stands for one position, and a component
+			// handed out at position c must be what the getter gives for c
+			for c := i + 1; c < i+4 && getAt != nil && probeAfterError; c++ {
+				el2, ok2, err2 := it.Next()
+				if err2 != nil || !ok2 {
+					continue
+				}
+				if renderElem(el2, h) != getAt(c) {
+					parts = append(parts, "AFTER-ERROR-WRONG")
+					break
+				}
+			}
 			break
 		}
 		if !ok {
@@ -61,12 +82,22 @@ func drainElems(it elemIter, n int, h tree.HashFn) string {
 	return strings.Join(parts, ",")
 }
 
-func drainBits(it bitIter, n int) string {
+func drainBits(it bitIter, n int, getAt func(i int) string) string {
 	var parts []string
 	for i := 0; i < n; i++ {
 		b, ok, err := it.Next()
 		if err != nil {
 			parts = append(parts, "ERR")
+			for c := i + 1; c < i+4 && getAt != nil && probeAfterError; c++ {
+				b2, ok2, err2 := it.Next()
+				if err2 != nil || !ok2 {
+					continue
+				}
+				if b01(b2) != getAt(c) {
+					parts = append(parts, "AFTER-ERROR-WRONG")
+					break
+				}
+			}
 			break
 		}
 		if !ok {
@@ -144,7 +175,14 @@ func iterObsN(t *Ty, vw view.View, h tree.HashFn, extra int) string {
 	switch x := vw.(type) {
 	case *view.BitVectorView:
 		n := int(t.N)
-		ro = guard(func() string { return drainBits(x.ReadonlyIter(), n+extra) })
+		bitAt := func(i int) string {
+			b, err := x.Get(uint64(i))
+			if err != nil {
+				return "ERR"
+			}
+			return b01(bool(b))
+		}
+		ro = guard(func() string { return drainBits(x.ReadonlyIter(), n+extra, bitAt) })
 		ix = guard(func() string { return drainBitsIx(x.Iter(), n+extra) })
 		get = guard(func() string {
 			var p []string
@@ -164,7 +202,14 @@ func iterObsN(t *Ty, vw view.View, h tree.HashFn, extra int) string {
 			return "ro=ERR ix=ERR get=ERR"
 		}
 		n := int(l)
-		ro = guard(func() string { return drainBits(x.ReadonlyIter(), n+extra) })
+		bitAt := func(i int) string {
+			b, err := x.Get(uint64(i))
+			if err != nil {
+				return "ERR"
+			}
+			return b01(bool(b))
+		}
+		ro = guard(func() string { return drainBits(x.ReadonlyIter(), n+extra, bitAt) })
 		ix = guard(func() string { return drainBitsIx(x.Iter(), n+extra) })
 		get = guard(func() string {
 			var p []string
@@ -219,7 +264,14 @@ func iterObsN(t *Ty, vw view.View, h tree.HashFn, extra int) string {
 		default:
 			return "ro=ERR ix=ERR get=ERR"
 		}
-		ro = guard(func() string { return drainElems(roIt(), n+extra, h) })
+		elemAt := func(i int) string {
+			e, err := getF(uint64(i))
+			if err != nil {
+				return "ERR"
+			}
+			return renderElem(e, h)
+		}
+		ro = guard(func() string { return drainElems(roIt(), n+extra, h, elemAt) })
 		ix = guard(func() string { return drainElemsIx(ixIt(), n+extra, h) })
 		get = guard(func() string {
 			var p []string
@@ -432,6 +484,8 @@ func TestC17(t *testing.T) {
 						if err != nil {
 							return "ro=ERR ix=ERR get=ERR"
 						}
+						probeAfterError = kind == "summ"
+						defer func() { probeAfterError = true }()
 						o := iterObs(ty, vw, h)
 						// FieldValues is not part of this stream
 						if i := strings.Index(o, " fv="); i >= 0 {
